@@ -70,6 +70,12 @@ Check C02_relations_lossless : forall s : str,
   ((exists r, relation_from_str s = Ok r) \/ (exists c, relation_from_str s = Err c)).
 Print Assumptions C02_relations_lossless.
 
+(* ... and their trees nest at most 5 deep (ROOT > ENTRY > RELATION > VERSION > CONSTRAINT/ERROR) *)
+Theorem C02_relations_depth : forall s allow t n, parse_relaxed s allow = Ok (t, n) -> depth t <= 5.
+Proof. exact rparse_depth. Qed.
+Check C02_relations_depth : forall s allow t n, parse_relaxed s allow = Ok (t, n) -> depth t <= 5.
+Print Assumptions C02_relations_depth.
+
 (* PGP unwrapping *)
 Theorem C02_pgp : forall s : str,
   (exists p o, strip_pgp_signature s = Ok (p, o)) \/ (exists e, strip_pgp_signature s = Err e).
